@@ -91,7 +91,8 @@ CheckFix(n) ==
       s   == IF fst = NoneV THEN Ok(NoneV, {}, NoneV) ELSE AlgDump(ty, fst)
       \* how `first` came about, when the key was not given (o.absent) or given as x (o.given): what Alg predicts for it,
       \* and the deviation of that first parse which is a reason for what follows (a default that was filled in as it is)
-      a0  == IF o.absent THEN AlgParseAbsent(ty, dd, o.norm) ELSE AlgParse(ty, V(o.x), dd)
+      \* (for a value that is given C02 compares the first parse; here only the file channel is looked at again)
+      a0  == IF o.absent THEN AlgParseAbsent(ty, dd, o.norm) ELSE IF o.x.k = "file" THEN AlgParse(ty, V(o.x), dd) ELSE Ok(fst, {}, fst)
       firstAsAlg == a0.ok /\ Canon(a0.v) = Canon(fst)
       fd  == IF firstAsAlg THEN a0.dev \cap {"rawDefault"} ELSE {}
       \* the tree that is parsed again is the one that was really written
@@ -102,6 +103,7 @@ CheckFix(n) ==
       \* what the Alg layer offers as the reason: the dumper raised / the order of a set / something on the way dump -> parse
       why(raised, cannotWrite, notThisFormat, ok, s1, s2) ==
         IF raised THEN (IF s.dev \cap cannotWrite # {} THEN "/as-alg/" \o DevStr(s.dev \cap cannotWrite) ELSE "/other")
+        ELSE IF fst = NoneV /\ dd # NoneV THEN "/as-alg/+noneOverDefault"                 \* dump leaves None out, the re-parse fills in the default
         ELSE IF reorder(ok, s1, s2) THEN "/as-alg/+setOrder"
         ELSE IF "setListing" \in s.dev \cup rd THEN "/as-alg/+setListing"               \* a set is listed where the order shows: any outcome
         ELSE LET d == ((s.dev \ {"leftObject"}) \cup rd) \ notThisFormat              \* (a set of lists written as !!set does not load)
